@@ -20,7 +20,7 @@ func NewStructProtoFunc() erpc.ProtoFunc {
 		p := &tStructProto{
 			id:        's',
 			name:      "thrift-struct",
-			rwCounter: utils.NewReadWriteCounter(rw),
+			rwCounter: utils.NewReadWriteCounter(&frameRW{ReadWriter: rw}),
 		}
 		p.tProtocol = thrift.NewTHeaderProtocol(&BaseTTransport{
 			ReadWriteCounter: p.rwCounter,
@@ -98,7 +98,7 @@ func (t *tStructProto) structPack(m erpc.Message) error {
 func (t *tStructProto) structUnpack(m erpc.Message) error {
 	t.unpackLock.Lock()
 	defer t.unpackLock.Unlock()
-	t.rwCounter.WriteCounter.Zero()
+	t.rwCounter.ReadCounter.Zero()
 	err := readMessageBegin(t.tProtocol, m)
 	if err != nil {
 		return err
